@@ -44,18 +44,41 @@ theorem callgraph (r d : Nat) (hr : callbackRoots.testBit r = true)
   rw [hdis] at this
   simp at this
 
-/-- Every function from which `Context::do_collection` is reachable (full graph, nothing cut) is
-`do_collection` itself or takes `&mut self` on `Arena` or consumes a `MarkedArena`. -/
+/-- The private helpers of the driver (functions a refactoring splits the driver loop into; none
+in the pinned tree) are private: none is client-callable or a `Drop` impl, and every edge into one of
+them starts at the driver or at another helper — they only ever run as part of a driver call. -/
+theorem driver_parts_private :
+    allIn fns driverParts (fun f => !f.clientCallable && !f.isDropImpl && f.selfKind == .other) = true ∧
+    ∀ a b : Nat, Edge adj 0 a b → driverParts.testBit b = true → driver.testBit a = true := by
+  refine ⟨by decide +kernel, fun a b hab hb => ?_⟩
+  have h : entersOnlyVia adj driver driverParts = true := by decide +kernel
+  exact edge_into_parts adj driver driverParts h a b hab hb
+
+/-- Every function from which the collector driver (`Context::do_collection`) is reachable (full
+graph, nothing cut) is the driver itself, one of its private helpers (`driver_parts_private`), or
+takes `&mut self` on `Arena` or consumes a `MarkedArena`. -/
 theorem collection_needs_exclusive_arena (a d : Nat) (hd : doCollection.testBit d = true)
     (h : Reach adj 0 a d) :
-    (maskWhere fns (fun f => f.tag == .doCollection || exclusiveEntry f)).testBit a = true := by
+    (maskWhere fns (fun f => f.tag == .doCollection || f.tag == .driverPart || exclusiveEntry f)).testBit a = true := by
   have hclosed : backClosedB adj collectorClosure = true := by decide +kernel
   have hstart : (doCollection &&& collectorClosure) = doCollection := by decide +kernel
-  have hall : (collectorClosure &&& maskWhere fns (fun f => f.tag == .doCollection || exclusiveEntry f))
+  have hall : (collectorClosure &&& maskWhere fns (fun f => f.tag == .doCollection || f.tag == .driverPart || exclusiveEntry f))
       = collectorClosure := by decide +kernel
   have hd' : collectorClosure.testBit d = true := mask_sub _ _ d hstart hd
   have ha := reach_into_back_closed adj collectorClosure hclosed a d hd' h
   exact mask_sub _ _ a hall ha
+
+/-- Lower bounds on the extracted graph (a translator that silently drops functions or edges cannot
+make `callgraph` / `collection_needs_exclusive_arena` vacuous): at least 300 functions, 150
+callback-side entry points, a callback closure at least 100 nodes larger than its roots (edges are
+there: the callback side does reach the allocation / barrier / upgrade paths), the driver is reached
+from at least one other function, at least 3 destructive nodes, a builder `Drop` impl. -/
+theorem required_graph_rows :
+    fns.length ≥ 300 ∧ count callbackRoots fns.length ≥ 150 ∧
+    count callbackClosure fns.length ≥ count callbackRoots fns.length + 100 ∧
+    closure adj builderDrops callbackRoots 64 = callbackClosure ∧
+    count collectorClosure fns.length ≥ 2 ∧ count destructive fns.length ≥ 3 ∧
+    count builderDrops fns.length ≥ 1 ∧ constructsMarkedArena.length ≥ 1 := by decide +kernel
 
 /-- `MarkedArena` holds `&mut Arena`, and is only constructed by `&mut self` methods of `Arena`. -/
 theorem marked_arena_exclusive :
